@@ -186,8 +186,21 @@ func (r *Runner) unTest(ctx context.Context, op syntax.UnTestOperator, x string)
 		case 2:
 			f = r.stderr
 		}
+		if f, ok := f.(*os.File); ok {
+			// Note that we only call [os.File.Fd] on character devices,
+			// as it stops [os.File.SetReadDeadline] from working,
+			// which [Runner.readLine] needs to cancel blocking reads.
+			// Anything else cannot be a terminal anyway.
+			if f == nil {
+				return false
+			}
+			if fi, err := f.Stat(); err != nil || fi.Mode()&os.ModeCharDevice == 0 {
+				return false
+			}
+			return term.IsTerminal(int(f.Fd()))
+		}
 		if f, ok := f.(interface{ Fd() uintptr }); ok {
-			// Support [os.File.Fd] methods such as the one on [*os.File].
+			// Support Fd methods on other types as well.
 			return term.IsTerminal(int(f.Fd()))
 		}
 		// TODO: allow term.IsTerminal here too if running in the
